@@ -264,6 +264,15 @@ pub fn drain_pool(_tick: bool) {
   }
 }
 
+/// leak the handles of pool tasks that belong to an execution that was torn down
+pub fn forget_pool() {
+  POOL.with(|p| {
+    for h in p.borrow_mut().drain(..) {
+      std::mem::forget(h);
+    }
+  });
+}
+
 pub fn spawned_tasks() -> u64 {
   SPAWNED.with(|s| *s.borrow())
 }
